@@ -38,6 +38,14 @@ pub proof fn lemma_scan_unique(s: spec_fn(int) -> int, off: int, w: spec_fn(int)
     lemma_scan(s, off, w, 0, limit);
 }
 /// C08: "an Ok result never changes when the limit is raised"
+/// the scan depends on the supply only through the values of its supply-bound function
+pub proof fn lemma_scan_ext(s1: spec_fn(int) -> int, s2: spec_fn(int) -> int, off: int, w: spec_fn(int) -> int, r: int, limit: int)
+    requires off >= 0, r >= 0, forall |x: int| x >= 0 ==> #[trigger] s1(x) == s2(x)
+    ensures scan(s1, off, w, r, limit) == scan(s2, off, w, r, limit)
+    decreases limit + 1 - r
+{
+    if r <= limit { assert(s1(off + r) == s2(off + r)); if !(s1(off + r) >= w(m1(r))) { lemma_scan_ext(s1, s2, off, w, r + 1, limit); } }
+}
 pub proof fn lemma_scan_limit_independent(s: spec_fn(int) -> int, off: int, w: spec_fn(int) -> int, limit: int, limit2: int)
     requires limit <= limit2, scan(s, off, w, 0, limit).is_some()
     ensures scan(s, off, w, 0, limit2) == scan(s, off, w, 0, limit)
